@@ -198,10 +198,36 @@ def bindings_of(text):
   return out
 
 
+MANY = []      # many small configurables (more than any bounded per-callable cache would hold)
+
+
+def _mk_many(i):
+  def many(x=0, y=1):
+    return (i, x, y)
+  many.__name__ = many.__qualname__ = 'many%d' % i
+  return many
+
+
+def warm_many(n):
+  """Registers 2n + 8 small configurables (once per process) and calls the first n, oldest
+  first; the second half is there to be called for the first time by a thread."""
+  while len(MANY) < 2 * n + 8:
+    i = len(MANY)
+    MANY.append(gin.configurable('many%d' % i, module='c18many')(_mk_many(i)))
+  for f in MANY[:n]:
+    f()
+
+
 def do_op(op, reads, uses, yield_now=lambda: None):
   yield_now()
   kind = op[0]
-  if kind == 'call':
+  if kind == 'many-call':
+    MANY[op[1] % len(MANY)](**[{}, {'x': 'by-caller'}][op[2] % 2])
+  elif kind == 'many-burst':
+    # a thread calls, for the first time, as many configurables as have been in use so far
+    for f in MANY[op[1]:op[1] + op[2]]:
+      f()
+  elif kind == 'call':
     scope = SCOPES[op[2] % len(SCOPES)]
     # different call shapes: which parameters Gin supplies (and hence records) differs per call,
     # so a lost update of the shared operative record changes the final text
@@ -268,6 +294,8 @@ def check_threads(case):
   del CTOR_LOG[:]
   FLAKY[0] = 0
   EVENTS.clear()
+  if case.get('warm'):
+    warm_many(case['warm'])
   tape = case['schedule']
   choices = sched.expand_schedule(tape)
   import os  # pylint: disable=g-import-not-at-top
@@ -346,6 +374,9 @@ def check_threads(case):
   FLAKY[0] = 0
   EVENTS['go'] = True          # one after another nobody has to wait
   WAIT[0] = lambda pred: None
+  if case.get('warm'):
+    warm_many(case['warm'])
+    labels.add('many-configurables-in-use')
   for i in range(n):
     for op in case['programs'][i]:
       do_op(op, [], [])
@@ -588,7 +619,44 @@ def _overlapping_readers_case(draw):
   return {'kind': 'threads', 'programs': programs, 'schedule': schedule}
 
 
+@st.composite
+def _many_configurables_case(draw):
+  """A few hundred configurables have been called (whatever Gin keeps per callable has been
+  filled); one thread calls one that was used a moment ago while another thread calls, for the
+  first time, as many others again (whatever bounded structure there is, everything older is
+  pushed out of it). The schedule lets the first thread run k steps, then the second one to its
+  end, then the first one again."""
+  n = draw(st.sampled_from([300, 300, 520]))
+  k = draw(st.integers(0, 260))
+  target = n - 1 - draw(st.integers(0, 2))
+  programs = [[['many-call', target, draw(st.integers(0, 1))]],
+              [['many-burst', n, n]]]
+  if draw(st.booleans()):
+    programs[0].append(['many-call', target - 1, 0])
+  schedule = {'t': [0] * k + [1], 's': 1, 'n': 0, 'burst': False}
+  return {'kind': 'threads', 'programs': programs, 'schedule': schedule, 'warm': n}
+
+
 def strategy():
   return st.one_of(_threads_case(), _threads_case(), _record_growth_case(), _sequential_case(),
                    _flaky_race_case(), _ctor_waits_case(), _first_use_race_case(),
-                   _overlapping_readers_case())
+                   _overlapping_readers_case(), _many_configurables_case())
+
+
+def sweep_many(tier):
+  """Every pre-emption point of one call: a thread calls a configurable used a moment ago (out of
+  a few hundred in use); after k of its steps inside Gin another thread calls as many configurables
+  again for the first time, then the first thread goes on. k runs over every step of the call."""
+  cases = []
+  shapes = [(300, 0, 0), (300, 1, 1)] if tier == 'quick' else [
+      (n, d, sh) for n in (300, 520) for d in (0, 1, 2) for sh in (0, 1)]
+  for n, d, sh in shapes:
+    for k in range(0, 140 if tier == 'quick' else 260):
+      cases.append({'kind': 'threads',
+                    'programs': [[['many-call', n - 1 - d, sh]], [['many-burst', n, n]]],
+                    'schedule': {'t': [0] * k + [1], 's': 1, 'n': 0, 'burst': False},
+                    'warm': n})
+  return cases, False
+
+
+SWEEPS = {'many-configurables': sweep_many}
